@@ -25,7 +25,7 @@
    scalar values off them.  Equality of values is Python's ==
    (1 == 1.0 == True), an equivalence ([C13_py_eq_equivalence]). *)
 From Coq Require Import List Ascii String ZArith QArith Bool.
-From YP Require Import Outcome PyStr PyVal Doc PathParser Searches Keywords SpecC12 SpecC13 PyValOrder KeywordProofs GroupProofs MixedProofs.
+From YP Require Import Outcome PyStr PyVal Doc PathParser Searches Keywords SpecC12 SpecC13 PyValOrder KeywordProofs GroupProofs MixedProofs MixedKinds.
 Import ListNotations.
 Open Scope string_scope.
 
@@ -813,3 +813,265 @@ Example C13_ex_parameter_misuse :
   kw_unique false [] ex_hoh ex_ctx = Raise (YPE Generic) /\
   kw_distinct false ["p"; "q"] ex_aoh ex_ctx = Raise (YPE Generic).
 Proof. vm_compute. repeat split; reflexivity. Qed.
+
+(* ---- collections mixing KINDS: numbers with text, booleans, numeric-looking
+   text.  OUTSIDE the property's quantifier ("same-kind scalars"); what the
+   code does on them is pinned here, for ALL such collections.
+
+   Searches.search_matches compares TYPED READINGS (Nodes.typed_value).  [rd]
+   names the reading of every comparable member ([has_reading lit rd v]:
+   typed_value succeeds with [rd v], which is a NUMBER -- int, float, bool --
+   or something with the member's own text).  [kind_member lit rd v] lists the
+   kinds and their readings: an int, a float (repr spells no boolean), a bool
+   (hypothesis [lit_reads_bools]: the oracle reads "True" / "False" as the
+   booleans, true of CPython; a bool IS handed to literal_eval), plain text
+   ([lit_rejects], no boolean spelling) read as themselves; numeric-looking
+   text -- text the oracle reads as an int / a float -- read as that number;
+   text spelling a boolean read as the boolean.
+
+   The comparison ([C13_search_matches_kinds], [C13_kinds_beats_cases]): a new
+   value reading as a number beats the running value only if that one reads as
+   a number too, and then by numeric value; a new value reading as text beats
+   the running value when its text is above / below str(running value) -- the
+   running value's own text, also when that is a number.  This is no order
+   ([5, -x] max() = 5, [-x, 5] max() = -x), so the statement has two phases.
+
+   [fsplit cls gd l pre b c0 post]: l splits at (b, c0), the FIRST extremum of
+   the members of class cls: b is in the class, those before it are strictly
+   worse, none after it is better.  [text_enters l1 t]: after the members l1 the
+   text member t takes the lead: no number precedes it, or it beats the text of
+   the first numeric extremum of l1.  [first_entry ms l1 t c l2]: (t, c) is the
+   FIRST text member that does; [no_entry ms]: none does.
+   [kinds_split cmp rd ms pre b c0 post], the selected leader (b, c0):
+     - no text member ever takes the lead, and b is the first numeric extremum
+       (by reading) of the members reading as numbers; or
+     - from the first text member taking the lead on, b is the first
+       lexicographic extremum of the text members (no number is selected).
+   The split is unique ([C13_kinds_split_unique]).  [kinds_selected]: selected
+   are c0 and the LATER members that search_matches(EQUALS) deems equal to b
+   ([kinds_eq]: the EQUALS ladder on the readings -- bool/bool, int/int,
+   float/float by value, anything else as text of the reading against the
+   running value's own text); inverted, all the others, nulls included. *)
+Theorem C13_kind_member_reading :
+  forall lit rd v, kind_member lit rd v -> has_reading lit rd v.
+Proof. exact kind_member_reading. Qed.
+Print Assumptions C13_kind_member_reading.
+
+Theorem C13_search_matches_kinds :
+  forall lit re_search rd cmp a b,
+    cmp = MGt \/ cmp = MLt -> has_reading lit rd a -> has_reading lit rd b ->
+    search_matches_g lit re_search cmp a (HVal b) = Ok (kinds_beats rd cmp a b) /\
+    search_matches_g lit re_search MEquals a (HVal b) = Ok (kinds_eq rd a b).
+Proof. exact search_matches_kinds. Qed.
+Print Assumptions C13_search_matches_kinds.
+
+Theorem C13_kinds_beats_cases :
+  forall rd cmp a b,
+    (is_numr rd b = true -> is_numr rd a = true ->
+       kinds_beats rd cmp a b = negb (goodb cmp (rd_leb rd) a b)) /\
+    (is_numr rd b = true -> is_numr rd a = false -> kinds_beats rd cmp a b = false) /\
+    (is_numr rd b = false -> kinds_beats rd cmp a b = text_beats cmp a b).
+Proof. exact kinds_beats_cases. Qed.
+Print Assumptions C13_kinds_beats_cases.
+
+Theorem C13_max_min_kinds_selects :
+  forall lit re_search node_str cmp rd invert i els x,
+    cmp = MGt \/ cmp = MLt ->
+    node_is_aoh true (NSeq i els) = false ->
+    (forall v c, In (Some v, c) (map (list_member node_str x) (enumerate els)) -> kind_member lit rd v) ->
+    exists res,
+      extremum lit re_search node_str cmp invert [] (NSeq i els) x = Ok res /\
+      forall c, In c res <-> kinds_selected cmp rd invert (map (list_member node_str x) (enumerate els)) c.
+Proof. exact extremum_list_kinds. Qed.
+Print Assumptions C13_max_min_kinds_selects.
+
+Theorem C13_max_min_kinds_selects_attr :
+  forall lit re_search node_str cmp rd invert attr i els x,
+    cmp = MGt \/ cmp = MLt ->
+    node_is_aoh true (NSeq i els) = true ->
+    (forall v c, In (Some v, c) (map (aoh_member node_str attr x) (enumerate els)) -> kind_member lit rd v) ->
+    exists res,
+      extremum lit re_search node_str cmp invert [attr] (NSeq i els) x = Ok res /\
+      forall c, In c res <-> kinds_selected cmp rd invert (map (aoh_member node_str attr x) (enumerate els)) c.
+Proof. exact extremum_aoh_kinds. Qed.
+Print Assumptions C13_max_min_kinds_selects_attr.
+
+Theorem C13_max_min_kinds_selects_hoh :
+  forall lit re_search node_str cmp rd invert attr i kvs x,
+    cmp = MGt \/ cmp = MLt ->
+    forallb (fun kv => is_map (snd kv)) kvs = true ->
+    (forall v c, In (Some v, c) (map (hoh_member node_str attr x) kvs) -> kind_member lit rd v) ->
+    exists res,
+      extremum lit re_search node_str cmp invert [attr] (NMap i kvs) x = Ok res /\
+      forall c, In c res <-> kinds_selected cmp rd invert (map (hoh_member node_str attr x) kvs) c.
+Proof. exact extremum_hoh_kinds. Qed.
+Print Assumptions C13_max_min_kinds_selects_hoh.
+
+(* the same for ANY members with a reading (dates, text reading as None, ...) *)
+Theorem C13_max_min_readings_selects :
+  forall lit re_search node_str cmp rd invert i els x,
+    cmp = MGt \/ cmp = MLt ->
+    node_is_aoh true (NSeq i els) = false ->
+    (forall v c, In (Some v, c) (map (list_member node_str x) (enumerate els)) -> has_reading lit rd v) ->
+    exists res,
+      extremum lit re_search node_str cmp invert [] (NSeq i els) x = Ok res /\
+      forall c, In c res <-> kinds_selected cmp rd invert (map (list_member node_str x) (enumerate els)) c.
+Proof. exact extremum_list_readings. Qed.
+Print Assumptions C13_max_min_readings_selects.
+
+Theorem C13_kinds_split_unique :
+  forall cmp rd ms pre b c0 post pre' b' c0' post',
+    kinds_split cmp rd ms pre b c0 post -> kinds_split cmp rd ms pre' b' c0' post' ->
+    pre' = pre /\ b' = b /\ c0' = c0 /\ post' = post.
+Proof. exact kinds_split_unique. Qed.
+Print Assumptions C13_kinds_split_unique.
+
+(* numbers + booleans + numeric-looking text (every member reads as a number):
+   the split is at the first numeric extremum by reading *)
+Theorem C13_kinds_split_all_numbers :
+  forall cmp rd ms pre b c0 post,
+    (forall v c, In (Some v, c) ms -> is_numr rd v = true) ->
+    (kinds_split cmp rd ms pre b c0 post <-> fsplit (is_numr rd) (num_good cmp rd) ms pre b c0 post).
+Proof. exact kinds_split_all_numbers. Qed.
+Print Assumptions C13_kinds_split_all_numbers.
+
+(* the first comparable member is a text: the split is at the first
+   lexicographic extremum of the text members; no number is ever selected *)
+Theorem C13_kinds_split_text_first :
+  forall cmp rd ms pre b c0 post l1 t c l2,
+    ms = (l1 ++ (Some t, c) :: l2)%list -> (forall w c', ~ In (Some w, c') l1) -> is_numr rd t = false ->
+    (kinds_split cmp rd ms pre b c0 post <->
+     exists mid, fsplit (is_textr rd) (text_good cmp) ((Some t, c) :: l2) mid b c0 post /\ pre = (l1 ++ mid)%list).
+Proof. exact kinds_split_text_first. Qed.
+Print Assumptions C13_kinds_split_text_first.
+
+(* ---- non-vacuity: mixed kinds, replayed on the real code ---- *)
+Definition ex_lit_k : string -> outcome litres :=
+  lit_of_table [("True", LVal (PBool true)); ("False", LVal (PBool false)); ("abc", LFail); ("Abd", LFail);
+                ("-x", LFail); ("zz", LFail); ("10", LVal (PInt 10)); ("1", LVal (PInt 1)); ("2", LVal (PInt 2));
+                ("1e1", LVal (PFloat 10 "10.0"))].
+Definition ex_rd_k (v : pyval) : pyval := match typed_value ex_lit_k v with Ok t => t | _ => v end.
+Definition nds (o : N) (vs : list pyval) : list node :=
+  map (fun iv => lf (o + N.of_nat (fst iv)) (snd iv)) (enumerate vs).
+Definition seqk (els : list node) : node := NSeq (mkinfo 2 None true None) els.
+Definition idxs (r : outcome (list coords)) : outcome (list rnode) := omap (map c_node) r.
+Definition xi (n : nat) : rnode := AtLoc [RKey (PStr "x"); RIdx n].
+
+(* x: [1, abc, 2.5, true, '10', null] *)
+Definition ex_kinds : list node :=
+  nds 100 [PInt 1; PStr "abc"; PFloat (5 # 2) "2.5"; PBool true; PStr "10"; PNone].
+Example C13_ex_kinds_hyps :
+  node_is_aoh true (seqk ex_kinds) = false /\
+  (forall v c, In (Some v, c) (map (list_member ex_str ex_ctx) (enumerate ex_kinds)) -> kind_member ex_lit_k ex_rd_k v).
+Proof.
+  split; [reflexivity|]. intros v c H. cbv in H.
+  repeat (destruct H as [H|H];
+    [inversion H; subst;
+     first [ apply KM_int; reflexivity
+           | apply KM_float; reflexivity
+           | apply KM_bool; [split; reflexivity|reflexivity]
+           | apply KM_text; [reflexivity|left; reflexivity|reflexivity]
+           | eapply KM_int_text; reflexivity ]|]).
+  contradiction.
+Qed.
+(* max() = abc (its text beats "1"; no later text is above it; no number ever wins against a text);
+   min() = the 1 and the later true (EQUALS: bool reading against an int reading: by value), not the text;
+   both agree with the real code *)
+Example C13_ex_kinds :
+  idxs (kw_max ex_lit_k ex_re ex_str false [] (seqk ex_kinds) ex_ctx) = Ok [xi 1] /\
+  idxs (kw_max ex_lit_k ex_re ex_str true [] (seqk ex_kinds) ex_ctx) = Ok [xi 0; xi 2; xi 3; xi 4; xi 5] /\
+  idxs (kw_min ex_lit_k ex_re ex_str false [] (seqk ex_kinds) ex_ctx) = Ok [xi 0; xi 3] /\
+  idxs (kw_min ex_lit_k ex_re ex_str true [] (seqk ex_kinds) ex_ctx) = Ok [xi 1; xi 2; xi 4; xi 5].
+Proof. vm_compute. repeat split; reflexivity. Qed.
+(* ... and the theorem's predicate holds of the selected member *)
+Example C13_ex_kinds_selected :
+  kinds_selected MGt ex_rd_k false (map (list_member ex_str ex_ctx) (enumerate ex_kinds)) (child_coords ex_ctx (RIdx 1)).
+Proof.
+  destruct (C13_max_min_kinds_selects ex_lit_k ex_re ex_str MGt ex_rd_k false (mkinfo 2 None true None) ex_kinds ex_ctx
+              (or_introl eq_refl) (proj1 C13_ex_kinds_hyps) (proj2 C13_ex_kinds_hyps)) as [res [E H]].
+  apply H. vm_compute in E. inversion E. left. reflexivity.
+Qed.
+(* the comparison is no order: x: [5, -x, 7] max() = 7 ("-x" is below "5"), x: [-x, 5, 7] max() = -x *)
+Example C13_ex_kinds_order_dependent :
+  idxs (kw_max ex_lit_k ex_re ex_str false [] (seqk (nds 100 [PInt 5; PStr "-x"; PInt 7])) ex_ctx) = Ok [xi 2] /\
+  idxs (kw_min ex_lit_k ex_re ex_str false [] (seqk (nds 100 [PInt 5; PStr "-x"; PInt 7])) ex_ctx) = Ok [xi 1] /\
+  idxs (kw_max ex_lit_k ex_re ex_str false [] (seqk (nds 100 [PStr "-x"; PInt 5; PInt 7])) ex_ctx) = Ok [xi 0] /\
+  idxs (kw_min ex_lit_k ex_re ex_str false [] (seqk (nds 100 [PStr "-x"; PInt 5; PInt 7])) ex_ctx) = Ok [xi 0].
+Proof. vm_compute. repeat split; reflexivity. Qed.
+(* numbers + booleans + numeric-looking text: x: [2, '10', 10, '1e1', 10.0, null, true]: max() = the '10' and
+   the later int 10 (not the text '1e1' / the float 10.0: EQUALS compares an int reading with a float reading as
+   text); min() = true (reading 1 < 2);  x: [true, 1, 1.0, '1', 2, '2', 2]: max() = the 2, the '2', the 2 *)
+Example C13_ex_kinds_numeric :
+  idxs (kw_max ex_lit_k ex_re ex_str false []
+          (seqk (nds 100 [PInt 2; PStr "10"; PInt 10; PStr "1e1"; PFloat 10 "10.0"; PNone; PBool true])) ex_ctx) = Ok [xi 1; xi 2] /\
+  idxs (kw_min ex_lit_k ex_re ex_str false []
+          (seqk (nds 100 [PInt 2; PStr "10"; PInt 10; PStr "1e1"; PFloat 10 "10.0"; PNone; PBool true])) ex_ctx) = Ok [xi 6] /\
+  idxs (kw_max ex_lit_k ex_re ex_str false []
+          (seqk (nds 100 [PBool true; PInt 1; PFloat 1 "1.0"; PStr "1"; PInt 2; PStr "2"; PInt 2])) ex_ctx) = Ok [xi 4; xi 5; xi 6] /\
+  idxs (kw_min ex_lit_k ex_re ex_str false []
+          (seqk (nds 100 [PBool true; PInt 1; PFloat 1 "1.0"; PStr "1"; PInt 2; PStr "2"; PInt 2])) ex_ctx) = Ok [xi 0].
+Proof. vm_compute. repeat split; reflexivity. Qed.
+(* numbers + text, the text phase: x: [3, 1e1, abc, Abd, abc, '10', 10.0] max() = the two abc; min() = 3;
+   x: [1, abc, 2.5, true, '10', null, zz, 100, zz] max() = the two zz *)
+Example C13_ex_kinds_text_phase :
+  idxs (kw_max ex_lit_k ex_re ex_str false []
+          (seqk (nds 100 [PInt 3; PFloat 10 "10.0"; PStr "abc"; PStr "Abd"; PStr "abc"; PStr "10"; PFloat 10 "10.0"])) ex_ctx) = Ok [xi 2; xi 4] /\
+  idxs (kw_min ex_lit_k ex_re ex_str false []
+          (seqk (nds 100 [PInt 3; PFloat 10 "10.0"; PStr "abc"; PStr "Abd"; PStr "abc"; PStr "10"; PFloat 10 "10.0"])) ex_ctx) = Ok [xi 0] /\
+  idxs (kw_max ex_lit_k ex_re ex_str false []
+          (seqk (nds 100 [PInt 1; PStr "abc"; PFloat (5 # 2) "2.5"; PBool true; PStr "10"; PNone; PStr "zz"; PInt 100; PStr "zz"])) ex_ctx) = Ok [xi 6; xi 8] /\
+  idxs (kw_max ex_lit_k ex_re ex_str true []
+          (seqk (nds 100 [PInt 1; PStr "abc"; PFloat (5 # 2) "2.5"; PBool true; PStr "10"; PNone; PStr "zz"; PInt 100; PStr "zz"])) ex_ctx) =
+    Ok [xi 0; xi 2; xi 3; xi 4; xi 5; xi 1; xi 7].
+Proof. vm_compute. repeat split; reflexivity. Qed.
+(* x: [{p: 2}, {q: 1}, {p: abc}, {p: null}, {p: '10'}, {p: abc}, {p: true}] by p: the hypotheses of
+   C13_max_min_kinds_selects_attr hold; max(p) = the two records with abc; min(p) = the record with true *)
+Definition ex_kinds_aoh : list node :=
+  [mp 31 [(lf 13 (PStr "p"), lf 14 (PInt 2))]; mp 32 [(lf 19 (PStr "q"), lf 20 (PInt 1))];
+   mp 33 [(lf 13 (PStr "p"), lf 34 (PStr "abc"))]; mp 35 [(lf 13 (PStr "p"), lf 4 PNone)];
+   mp 36 [(lf 13 (PStr "p"), lf 37 (PStr "10"))]; mp 38 [(lf 13 (PStr "p"), lf 34 (PStr "abc"))];
+   mp 39 [(lf 13 (PStr "p"), lf 40 (PBool true))]].
+Example C13_ex_kinds_aoh :
+  node_is_aoh true (NSeq (mkinfo 30 None true None) ex_kinds_aoh) = true /\
+  (forall v c, In (Some v, c) (map (aoh_member ex_str "p" ex_ctx) (enumerate ex_kinds_aoh)) -> kind_member ex_lit_k ex_rd_k v) /\
+  idxs (kw_max ex_lit_k ex_re ex_str false ["p"] (NSeq (mkinfo 30 None true None) ex_kinds_aoh) ex_ctx) = Ok [xi 2; xi 5] /\
+  idxs (kw_min ex_lit_k ex_re ex_str false ["p"] (NSeq (mkinfo 30 None true None) ex_kinds_aoh) ex_ctx) = Ok [xi 6].
+Proof.
+  split; [reflexivity|]. split; [|vm_compute; split; reflexivity]. intros v c H. cbv in H.
+  repeat (destruct H as [H|H];
+    [first [discriminate H |
+       inversion H; subst;
+       first [ apply KM_int; reflexivity
+             | apply KM_bool; [split; reflexivity|reflexivity]
+             | apply KM_text; [reflexivity|left; reflexivity|reflexivity]
+             | eapply KM_int_text; reflexivity ]]|]).
+  contradiction.
+Qed.
+(* x: {r0: {p: 2}, r1: {q: 1}, r2: {p: abc}, r3: {p: null}, r4: {p: '10'}, r5: {p: abc}, r6: {p: true}} by p:
+   the hypotheses of C13_max_min_kinds_selects_hoh hold; max(p) = r2 and r5; min(p) = r6 *)
+Definition ex_kinds_hoh_kvs : list (node * node) :=
+  [(lf 11 (PStr "r0"), mp 12 [(lf 13 (PStr "p"), lf 14 (PInt 2))]);
+   (lf 15 (PStr "r1"), mp 16 [(lf 19 (PStr "q"), lf 20 (PInt 1))]);
+   (lf 17 (PStr "r2"), mp 18 [(lf 13 (PStr "p"), lf 34 (PStr "abc"))]);
+   (lf 21 (PStr "r3"), mp 22 [(lf 13 (PStr "p"), lf 4 PNone)]);
+   (lf 23 (PStr "r4"), mp 24 [(lf 13 (PStr "p"), lf 37 (PStr "10"))]);
+   (lf 25 (PStr "r5"), mp 26 [(lf 13 (PStr "p"), lf 34 (PStr "abc"))]);
+   (lf 27 (PStr "r6"), mp 28 [(lf 13 (PStr "p"), lf 40 (PBool true))])].
+Example C13_ex_kinds_hoh :
+  forallb (fun kv => is_map (snd kv)) ex_kinds_hoh_kvs = true /\
+  (forall v c, In (Some v, c) (map (hoh_member ex_str "p" ex_ctx) ex_kinds_hoh_kvs) -> kind_member ex_lit_k ex_rd_k v) /\
+  idxs (kw_max ex_lit_k ex_re ex_str false ["p"] (mp 10 ex_kinds_hoh_kvs) ex_ctx) =
+    Ok [AtLoc [RKey (PStr "x"); RKey (PStr "r2")]; AtLoc [RKey (PStr "x"); RKey (PStr "r5")]] /\
+  idxs (kw_min ex_lit_k ex_re ex_str false ["p"] (mp 10 ex_kinds_hoh_kvs) ex_ctx) =
+    Ok [AtLoc [RKey (PStr "x"); RKey (PStr "r6")]].
+Proof.
+  split; [reflexivity|]. split; [|vm_compute; split; reflexivity]. intros v c H. cbv in H.
+  repeat (destruct H as [H|H];
+    [first [discriminate H |
+       inversion H; subst;
+       first [ apply KM_int; reflexivity
+             | apply KM_bool; [split; reflexivity|reflexivity]
+             | apply KM_text; [reflexivity|left; reflexivity|reflexivity]
+             | eapply KM_int_text; reflexivity ]]|]).
+  contradiction.
+Qed.
